@@ -1,5 +1,8 @@
 import FitProps.Go2LeanTimestamp
 import FitProps.Go2LeanRecordHeader
+import FitProps.Go2LeanLru
+import FitProps.Go2LeanProtoMarshal
+import FitProps.Go2LeanEncoderMesgDef
 /-!
 # C01 — tie of the compressed-timestamp arithmetic to the source by translation
 
@@ -13,7 +16,11 @@ functions of the models the round-trip theorems of C01 are about.
 
 PROPERTY THEOREMS (audited by ./check): C01_go2lean_dec_header, C01_go2lean_dec_header_wire, C01_go2lean_dec_field,
 C01_go2lean_dec_field_wire, C01_go2lean_dec_isCompressed, C01_go2lean_enc_decide, C01_go2lean_hdr_dec_kind,
-C01_go2lean_hdr_dec_local, C01_go2lean_hdr_enc, C01_go2lean_hdr_roundtrip
+C01_go2lean_hdr_dec_local, C01_go2lean_hdr_enc, C01_go2lean_hdr_roundtrip, C01_go2lean_lru_put, C01_go2lean_lru_run,
+C01_go2lean_lru_new, C01_go2lean_lru_resize
+
+The LRU of local message definitions (encoder/lru.go, all seven methods, `FitModel/Generated/Go_encoderlru.lean`) is tied to
+`Fit.Wire.Lru` by a simulation (`FitProps/Go2LeanLru.lean`): see the four `C01_go2lean_lru_*` theorems at the end.
 -/
 namespace Fit.C01
 open Fit.Go2Lean
@@ -70,5 +77,72 @@ example : (Go.encoder.compressTimestampIntoHeader_decide 0x10000000 0x10000000 0
     (Go.encoder.compressTimestampIntoHeader_decide 0x10000000 0x10000000 0 0x10000025).ret = some false ∧
     (Go.encoder.compressTimestampIntoHeader_decide 0x10000000 0x10000000 0 0x10000025).e_timestampReference = 0x10000025 ∧
     (Go.decoder.decodeMessageData_timestamp 30 0x1000001E 0x83).d_timestamp = 0x10000023 := by decide +kernel
+
+/-! ### the LRU of local message definitions (encoder/lru.go) -/
+
+/-- `Put` translated from the source simulates the model's `Lru.put`: from every Go state `g` that a model state `m` stands
+for (`LruRep`: same bucket, same capacity, same item under every live index, plus the invariant of lru.go), for every item
+and every hidden tail (capacity and stale contents of the slice that `replaceLeastRecentlyUsed` re-uses), the Go code does
+not panic, returns the local message number and the is-new flag of the model, and ends in a state the model's next state
+stands for. -/
+theorem C01_go2lean_lru_put (g : Go.encoderlru.lru) (m : Fit.Wire.Lru) (h : LruRep g m) (item tail : List Nat) :
+    ∃ g', Go.encoderlru.lru.Put g item tail = some (g', (m.put item).2.1, (m.put item).2.2) ∧
+      LruRep g' (m.put item).1 := lru_put g m h item tail
+
+/-- along every sequence of definitions: the local message numbers and is-new flags of the translated code are the model's -/
+theorem C01_go2lean_lru_run (g : Go.encoderlru.lru) (m : Fit.Wire.Lru) (h : LruRep g m) (ops : List (List Nat × List Nat)) :
+    goLruRun g ops = some (modelLruRun m (ops.map (·.1))) := lru_run g m h ops
+
+/-- `newLRU(size)` (= `ResetWithNewSize(size)` on the zero value) is the model's `Lru.empty size` — so `LruRep` is not vacuous
+and the run theorem applies from the encoder's initial state -/
+theorem C01_go2lean_lru_new (size : Nat) (h0 : 0 < size) (h1 : size < 256) (tail1 : List (List Nat)) :
+    ∃ g', Go.encoderlru.lru.ResetWithNewSize ⟨[], []⟩ size [] tail1 = some g' ∧ LruRep g' (Fit.Wire.Lru.empty size) :=
+  lru_new size h0 h1 tail1
+
+/-- `ResetWithNewSize(size)` from ANY state (the encoder re-uses its LRU), whatever the capacity of the item slice (a byte)
+and whatever lies behind its length: the model's `Lru.empty size`. `tail` / `tail1` are the hidden part of `l.items` at
+`cap(l.items)` and at the re-slice after `l.Reset()` (which assigns elements only: same length). -/
+theorem C01_go2lean_lru_resize (g : Go.encoderlru.lru) (size : Nat) (h0 : 0 < size) (h1 : size < 256)
+    (tail tail1 : List (List Nat)) (hcap : g.items.length + tail.length < 256) (hsame : tail1.length = tail.length) :
+    ∃ g', Go.encoderlru.lru.ResetWithNewSize g size tail tail1 = some g' ∧ LruRep g' (Fit.Wire.Lru.empty size) :=
+  lru_resize g size h0 h1 tail tail1 hcap hsame
+
+/-- non-vacuity: three `Put`s into a new LRU of two entries — store, store, hit — run through both sides -/
+example : goLruRun ⟨[[], []], []⟩ [([1], []), ([2], [7]), ([1], [])] = some [(0, true), (1, true), (0, false)] := by decide
+
+/-! the bytes of a definition record and the header byte of a data record: proto/proto_marshal.go, translated as unit
+`protomarshal` (`FitModel/Generated/Go_protomarshal.lean`); `MessageDefinition.MarshalAppend` is translated WHOLE.
+PROPERTY THEOREMS (audited by ./check): C01_go2lean_def_marshal, C01_go2lean_def_wire, C01_go2lean_def_header,
+C01_go2lean_def_length, C01_go2lean_data_header -/
+
+theorem C01_go2lean_def_marshal (m : Go.protomarshal.MessageDefinition) (b : List Nat) :
+    Go.protomarshal.MessageDefinition.MarshalAppend m b = some (b ++ pmDefSpec m) := pm_def_marshal m b
+
+theorem C01_go2lean_def_wire (arch : Nat) (m : Fit.Wire.WMsg) (b : List Nat) :
+    Go.protomarshal.MessageDefinition.MarshalAppend (pmDefOf arch m) b = some (b ++ Fit.Wire.defBytes arch m) :=
+  pm_def_wire arch m b
+
+theorem C01_go2lean_def_header :
+    Go.protomarshal.MesgDefinitionMask = 0x40 ∧ Go.protomarshal.DevDataMask = 0x20 ∧
+    Go.protomarshal.LittleEndian = 0 ∧ Go.protomarshal.BigEndian = 1 ∧
+    (∀ h, (Go.protomarshal.NewMessageDefinition_devHeader h).mesgDef_Header = h ||| 0x20) ∧
+    (Go.protomarshal.NewMessageDefinition_devHeader Go.protomarshal.MesgDefinitionMask).mesgDef_Header = 0x60 := pm_def_header
+
+theorem C01_go2lean_def_length (m : Go.protomarshal.MessageDefinition) (b out : List Nat)
+    (h : Go.protomarshal.MessageDefinition.MarshalAppend m b = some out) :
+    out.length = b.length + 6 + 3 * m.FieldDefinitions.length +
+      (if m.Header &&& 32 = 32 then 1 + 3 * m.DeveloperFieldDefinitions.length else 0) := pm_def_length m b out h
+
+theorem C01_go2lean_data_header (b : List Nat) (hdr : Nat) (m : Fit.Wire.WMsg) :
+    (Go.protomarshal.Message_MarshalAppend_header b hdr).b = b ++ [hdr] ∧
+    (Go.protomarshal.Message_MarshalAppend_header [] hdr).b ++ Fit.Wire.payload m = hdr :: Fit.Wire.payload m :=
+  pm_data_header b hdr m
+
+/-! the same for the definition as the ENCODER builds it (encoder/encoder.go `newMessageDefinition`, unit `encodermesgdef`).
+PROPERTY THEOREMS (audited by ./check): C01_go2lean_enc_def_wire -/
+
+theorem C01_go2lean_enc_def_wire (h0 r0 a0 n0 arch : Nat) (m : Fit.Wire.WMsg) (b : List Nat) :
+    Go.protomarshal.MessageDefinition.MarshalAppend (pmEncDefOf h0 r0 a0 n0 arch m) b = some (b ++ Fit.Wire.defBytes arch m) :=
+  pm_enc_def_wire h0 r0 a0 n0 arch m b
 
 end Fit.C01
